@@ -498,7 +498,16 @@ def run_fmt(ctx, case, P, model):
             P.add("cstr %0", expect_ok(model.hex()))
         else:
             pos = 0 if case["pos"] == "start" else len(model)
-            P.add(("print %%0 %d %s %s" % (pos, fmt.encode().hex(), args)).rstrip(), expect_exc("FormatError"))
+            op = "print"
+            if len(convs) >= 2 and nargs >= 1 and (len(fmt) + nargs) % 2 == 0:
+                # the format is built in a buffer the caller reuses: a complete print of the format's first conversions
+                # comes first (into a scratch String), then the same buffer holds the longer format
+                op = "printb"
+                short = "".join(lits[i] + "%" + cv for i, cv in enumerate(convs[:nargs]))
+                P.add("new %9 heap t:String s:")
+                P.add(("printb %%9 0 %s %s" % (short.encode().hex(), args)).rstrip(), lambda o: None if o.startswith("ok") else "complete print failed: " + o)
+                P.add("del %9")
+            P.add(("%s %%0 %d %s %s" % (op, pos, fmt.encode().hex(), args)).rstrip(), expect_exc("FormatError"))
             listed = known_off("print-too-few-partial-output") and not case.get("strict")
 
             def chk(o, listed=listed, keep=model[:pos], whole=model):
